@@ -452,6 +452,8 @@ def scan_range_general(m, f, loop, H):
                 dd = decl_of(n["ref"]["name"])
                 return off(kids(dd)[0], depth + 1) if dd is not None else None
             return None
+        if k == "CallExpr" and callee_ref(n) == "cmi_hash_find_index":
+            return Poly.sym("K")     # the slot of one entry looked up by its key: some slot, not a function of heap_count
         if k == "MemberExpr" and n.get("name") == "heap":
             return Poly()
         if k == "UnaryOperator" and n.get("opcode") == "&":
@@ -611,6 +613,8 @@ def scan_range(m, f, loop, H):
             if d is not None and depth < 6:
                 return off(d, depth + 1)
             return None
+        if k == "CallExpr" and callee_ref(n) == "cmi_hash_find_index":
+            return Poly.sym("K")     # the slot of one entry looked up by its key: some slot, not a function of heap_count
         if k == "MemberExpr" and n.get("name") == "heap":
             return Poly()            # the array itself = slot 0
         if k == "UnaryOperator" and n.get("opcode") == "&":
